@@ -14,8 +14,15 @@
     [D8] after 6d0a3af (the tree as it is).  The main theorems are stated for every
     value of the flags they depend on; a guard is false by definition for the repaired variant.
     What is left of the guard of C03-F6 is the request view without RawPath, which no entry
-    point produces for a non-empty path any more (ae6db4f). *)
-From HV Require Import Base.Prelude C03.Model C03.Spec C03.Proofs C03.ProofsTree C03.ProofsAdd C03.ProofsSpec.
+    point produces for a non-empty path any more (ae6db4f).
+
+    The theorems named C03_reach_... / C03_history_... (end of the file) state the lookup theorems
+    for EVERY tree the repository can reach by Tree.Add and Tree.Delete and after EVERY history of
+    AddRuleSet / UpdateRuleSet / DeleteRuleSet: the tree is the shared compressed tree
+    (Radix/Tree.v, C06/TreeDel.v) read as a C03 tree ([conv]); proofs in C03/Reach*.v on top of
+    Radix/, C06/TreeDel*.v, C06/TreeRefine.v and C02/Reach.v. *)
+From HV Require Import Base.Prelude C03.Model C03.Spec C03.Proofs C03.ProofsTree C03.ProofsAdd C03.ProofsSpec
+  C03.ReachConv C03.ReachSpec C03.ReachHist C03.ReachTheorems.
 Open Scope list_scope.
 Open Scope string_scope.
 
@@ -275,3 +282,143 @@ Theorem C03_nonvacuous :
     route_matches true true D8 eng_none cm q keys vals = MYes.
 Proof. exact route_semantics_nonvacuous_live. Qed.
 Print Assumptions C03_nonvacuous.
+
+(* ================================================================== every tree the repository can reach *)
+
+(** every tree reached by Tree.Add of route ids with their routes' expressions and Tree.Delete of
+    valid expressions (any order, any values constraint, any value matchers) is a reachable index
+    in the sense of C02/Reach.v, satisfies the invariant [wfd] of Find / Add / Delete, and its
+    abstraction - the content of the pattern-map machine - holds per pattern only values whose own
+    expression parses to that pattern with the node's key names *)
+Theorem C03_reach_content : forall can_add es T,
+  reach_tree can_add es T ->
+  C02.Reach.reachable can_add T /\ C06.TreeDel.wfd T = true /\
+  forall p N v, In (p, N) (RT.abs T) -> In v (RS.vals N) ->
+    exists e, nth_error es v = Some e /\ RS.parse_expr (chars (ce_path e)) = Some (p, RS.keys N).
+Proof. exact reach_content. Qed.
+Print Assumptions C03_reach_content.
+
+(** [C03_matcher_sees_route_keys] on every reachable tree: [ds] = all rule definitions that ever went
+    into the repository, a route is its position in [flat_routes 0 ds] *)
+Theorem C03_reach_matcher_sees_route_keys : forall can_add fx1 fx4 fx6 fx7 eng ds cs T q,
+  create_rules fx4 ds = Ok cs -> reach_tree can_add (entries_of 0 cs) T ->
+  forall k, In k (snd (serve fx1 true true fx6 fx7 eng (entries_of 0 cs) (conv T) q)) ->
+  exists s, nth_error (flat_routes 0 ds) (k_vid k) = Some s /\
+    sr_segs s q = Some (k_vals k) /\ k_keys k = declared_names (sr_tokens s).
+Proof. intros can_add fx1 fx4 fx6 fx7 eng ds cs T q Hc Hr. exact (reach_matcher_sees_route_keys can_add fx4 ds cs T Hc Hr fx1 fx6 fx7 eng q). Qed.
+Print Assumptions C03_reach_matcher_sees_route_keys.
+
+Theorem C03_reach_lookup_answers_as_documented : forall can_add fx1 fx4 fx6 fx7 eng ds cs T q,
+  create_rules fx4 ds = Ok cs -> reach_tree can_add (entries_of 0 cs) T ->
+  forall k, In k (snd (serve fx1 true true fx6 fx7 eng (entries_of 0 cs) (conv T) q)) ->
+  forall s segs, nth_error (flat_routes 0 ds) (k_vid k) = Some s -> sr_segs s q = Some segs ->
+    Forall valid_enc segs -> Forall (from_path q) segs ->
+    route_guards fx1 fx4 fx6 fx7 eng s q segs = false ->
+    k_res k = spec_answer eng s q segs.
+Proof. intros can_add fx1 fx4 fx6 fx7 eng ds cs T q Hc Hr. exact (reach_lookup_answers_spec can_add fx4 ds cs T Hc Hr fx1 fx6 fx7 eng q). Qed.
+Print Assumptions C03_reach_lookup_answers_as_documented.
+
+Theorem C03_reach_lookup_answers_as_documented_now : forall can_add eng ds cs T q,
+  create_rules true ds = Ok cs -> reach_tree can_add (entries_of 0 cs) T ->
+  String.eqb (q_rawpath q) "" = false -> valid_enc (q_rawpath q) ->
+  forall k, In k (snd (serve true true true true D8 eng (entries_of 0 cs) (conv T) q)) ->
+  forall s segs, nth_error (flat_routes 0 ds) (k_vid k) = Some s -> sr_segs s q = Some segs ->
+    k_res k = spec_answer eng s q segs.
+Proof. intros can_add eng ds cs T q Hc Hr. exact (reach_lookup_answers_spec_now can_add ds cs T Hc Hr eng q). Qed.
+Print Assumptions C03_reach_lookup_answers_as_documented_now.
+
+Theorem C03_reach_lookup_no_panic : forall can_add fx1 fx4 fx6 fx7 eng ds cs T q,
+  create_rules fx4 ds = Ok cs -> reach_tree can_add (entries_of 0 cs) T ->
+  fst (serve fx1 true true fx6 fx7 eng (entries_of 0 cs) (conv T) q) <> OPanic.
+Proof. intros can_add fx1 fx4 fx6 fx7 eng ds cs T q Hc Hr. exact (reach_lookup_no_panic can_add fx4 ds cs T Hc Hr fx1 fx6 fx7 eng q). Qed.
+Print Assumptions C03_reach_lookup_no_panic.
+
+Theorem C03_reach_lookup_selected : forall can_add fx1 fx4 fx6 fx7 eng ds cs T q r caps rej calls,
+  create_rules fx4 ds = Ok cs -> reach_tree can_add (entries_of 0 cs) T ->
+  serve fx1 true true fx6 fx7 eng (entries_of 0 cs) (conv T) q = (ORule r caps rej, calls) ->
+  exists v s segs k, nth_error (flat_routes 0 ds) v = Some s /\ sr_rule s = r /\ sr_segs s q = Some segs /\
+    In k calls /\ k_vid k = v /\ k_res k = MYes /\
+    execute fx7 (rl_slash (sr_def s)) q (map_of (named_pairs (declared_names (sr_tokens s)) segs)) = (caps, rej).
+Proof. intros can_add fx1 fx4 fx6 fx7 eng ds cs T q r caps rej calls Hc Hr. exact (reach_lookup_selected can_add fx4 ds cs T Hc Hr fx1 fx6 fx7 eng q r caps rej calls). Qed.
+Print Assumptions C03_reach_lookup_selected.
+
+Theorem C03_reach_unnamed_not_exposed : forall can_add fx1 fx4 fx6 fx7 eng ds cs T q r caps rej calls,
+  create_rules fx4 ds = Ok cs -> reach_tree can_add (entries_of 0 cs) T ->
+  serve fx1 true true fx6 fx7 eng (entries_of 0 cs) (conv T) q = (ORule r caps rej, calls) ->
+  forall k v, In (k, v) caps -> k <> "*".
+Proof. intros can_add fx1 fx4 fx6 fx7 eng ds cs T q r caps rej calls Hc Hr. exact (reach_unnamed_not_exposed can_add fx4 ds cs T Hc Hr fx1 fx6 fx7 eng q r caps rej calls). Qed.
+Print Assumptions C03_reach_unnamed_not_exposed.
+
+(** THE STATEMENT end to end on every reachable tree *)
+Theorem C03_reach_selected_only_if_documented : forall can_add eng ds cs T q r caps rej calls,
+  create_rules true ds = Ok cs -> reach_tree can_add (entries_of 0 cs) T ->
+  String.eqb (q_rawpath q) "" = false -> valid_enc (q_rawpath q) ->
+  serve true true true true D8 eng (entries_of 0 cs) (conv T) q = (ORule r caps rej, calls) ->
+  exists v s segs, nth_error (flat_routes 0 ds) v = Some s /\ sr_rule s = r /\ sr_segs s q = Some segs /\
+    spec_route_ok eng (sr_def s) (rt_params (sr_route s)) q (declared_names (sr_tokens s)) segs = true /\
+    rej = spec_rejected (rl_slash (sr_def s)) q /\
+    (rej = false -> exists sc, spec_captures (rl_slash (sr_def s)) (declared_names (sr_tokens s)) segs = Some sc /\ caps = sc).
+Proof. intros can_add eng ds cs T q r caps rej calls Hc Hr. exact (reach_selected_only_if_documented can_add ds cs T Hc Hr eng q r caps rej calls). Qed.
+Print Assumptions C03_reach_selected_only_if_documented.
+
+(* ================================================================== after any history of rule-set operations *)
+
+(** after EVERY history of AddRuleSet / UpdateRuleSet / DeleteRuleSet (accepted or refused, each
+    all-or-nothing) the index is a reachable tree *)
+Theorem C03_history_index_is_reachable : forall es metas ops,
+  reach_tree (same_src es metas) es (h_tree (fst (hrun es metas ops))).
+Proof. exact hrun_reach. Qed.
+Print Assumptions C03_history_index_is_reachable.
+
+Theorem C03_history_matcher_sees_route_keys : forall ds cs metas ops fx1 fx4 fx6 fx7 eng q,
+  create_rules fx4 ds = Ok cs ->
+  forall k, In k (snd (serve fx1 true true fx6 fx7 eng (entries_of 0 cs) (hist_index cs metas ops) q)) ->
+  exists s, nth_error (flat_routes 0 ds) (k_vid k) = Some s /\
+    sr_segs s q = Some (k_vals k) /\ k_keys k = declared_names (sr_tokens s).
+Proof. exact hist_matcher_sees_route_keys. Qed.
+Print Assumptions C03_history_matcher_sees_route_keys.
+
+Theorem C03_history_lookup_no_panic : forall ds cs metas ops fx1 fx4 fx6 fx7 eng q,
+  create_rules fx4 ds = Ok cs ->
+  fst (serve fx1 true true fx6 fx7 eng (entries_of 0 cs) (hist_index cs metas ops) q) <> OPanic.
+Proof. exact hist_lookup_no_panic. Qed.
+Print Assumptions C03_history_lookup_no_panic.
+
+Theorem C03_history_lookup_answers_as_documented_now : forall ds cs metas ops eng q,
+  create_rules true ds = Ok cs ->
+  String.eqb (q_rawpath q) "" = false -> valid_enc (q_rawpath q) ->
+  forall k, In k (snd (serve true true true true D8 eng (entries_of 0 cs) (hist_index cs metas ops) q)) ->
+  forall s segs, nth_error (flat_routes 0 ds) (k_vid k) = Some s -> sr_segs s q = Some segs ->
+    k_res k = spec_answer eng s q segs.
+Proof. exact hist_lookup_answers_spec_now. Qed.
+Print Assumptions C03_history_lookup_answers_as_documented_now.
+
+(** THE STATEMENT end to end after any history *)
+Theorem C03_history_selected_only_if_documented : forall ds cs metas ops eng q r caps rej calls,
+  create_rules true ds = Ok cs ->
+  String.eqb (q_rawpath q) "" = false -> valid_enc (q_rawpath q) ->
+  serve true true true true D8 eng (entries_of 0 cs) (hist_index cs metas ops) q = (ORule r caps rej, calls) ->
+  exists v s segs, nth_error (flat_routes 0 ds) v = Some s /\ sr_rule s = r /\ sr_segs s q = Some segs /\
+    spec_route_ok eng (sr_def s) (rt_params (sr_route s)) q (declared_names (sr_tokens s)) segs = true /\
+    rej = spec_rejected (rl_slash (sr_def s)) q /\
+    (rej = false -> exists sc, spec_captures (rl_slash (sr_def s)) (declared_names (sr_tokens s)) segs = Some sc /\ caps = sc).
+Proof. exact hist_selected_only_if_documented. Qed.
+Print Assumptions C03_history_selected_only_if_documented.
+
+(** non-vacuity: a history whose tree went through prefix splits and a deleteChild merge, with a
+    route carrying path_params on a single and on a free wildcard (C03/ReachTheorems.v) *)
+Theorem C03_history_nonvacuous :
+  ex_oks ex_ops = Some [true; true; true] /\
+  ex_paths (firstn 2 ex_ops) = Some [""; "/"; "f"; "oo"; "/"; "ba"; "r"; "z"; "/"; "wildcard"; "iles"; "/"; "rest"] /\
+  ex_paths ex_ops = Some [""; "/"; "f"; "oo"; "/"; "baz"; "/"; "wildcard"; "iles"; "/"; "rest"] /\
+  ex_serve ex_ops (w_req "GET" "h" "/foo/baz/1")
+    = Some (ORule 1 [("x", "1")] false, [{| k_vid := 1; k_keys := ["x"]; k_vals := ["1"]; k_res := MYes |}]) /\
+  ex_serve ex_ops (w_req "GET" "h" "/foo/baz/2")
+    = Some (ONone, [{| k_vid := 1; k_keys := ["x"]; k_vals := ["2"]; k_res := MNo |}]) /\
+  ex_serve ex_ops (w_req "GET" "h" "/files/a/b")
+    = Some (ORule 1 [("rest", "a/b")] false, [{| k_vid := 2; k_keys := ["rest"]; k_vals := ["a/b"]; k_res := MYes |}]) /\
+  ex_serve ex_ops (w_req "GET" "h" "/foo/bar") = Some (ONone, []) /\
+  ex_serve (firstn 2 ex_ops) (w_req "GET" "h" "/foo/bar")
+    = Some (ORule 0 [] false, [{| k_vid := 0; k_keys := []; k_vals := []; k_res := MYes |}]).
+Proof. exact hist_example. Qed.
+Print Assumptions C03_history_nonvacuous.
